@@ -342,10 +342,13 @@ impl std::fmt::Display for Value {
             Value::Array(_, x) => write!(f, "{{{}}}", x.iter().map(|x| format!("{}", x)).join(", ")),
             Value::Timestamp(x) => write!(f, "{}", x.format("%Y-%m-%d %H:%M:%S.%3f")),
             Value::Interval(x) => {
+                // A negative interval is the sign followed by the text of its magnitude
+                // (the parts used to carry their own signs: 00:-1:-30.-500)
+                let (sign, x) = if *x < IntervalType::zero() { ("-", -*x) } else { ("", *x) };
                 let seconds = x.num_seconds() % 60;
                 let minutes = (x.num_seconds() / 60) % 60;
                 let hours = (x.num_seconds() / 60) / 60;
-                write!(f, "{:0>2}:{:0>2}:{:0>2}.{:0>3}", hours, minutes, seconds, x.num_milliseconds() - x.num_seconds() * 1000)
+                write!(f, "{}{:0>2}:{:0>2}:{:0>2}.{:0>3}", sign, hours, minutes, seconds, x.num_milliseconds() - x.num_seconds() * 1000)
             }
         }
     }
